@@ -79,6 +79,18 @@ pub fn run(ctx: &Ctx) -> i32 {
         a,
     );
 
+    // character level (names are not pre-tokenised): includes a multi-byte character and a tab
+    let chars = ["a", "c", "p", "_", "é", "=", "+", "e", " ", ",", "\t", "A"];
+    let cl = if ctx.thorough() { 7 } else { 6 };
+    let nc = strings_count(chars.len(), cl);
+    let cacc = merge(par_fold(nc, Acc::new, |i, acc| {
+        let mut toks = Vec::with_capacity(8);
+        strings_nth(i, chars.len(), &mut toks);
+        let s: String = toks.iter().map(|t| chars[*t]).collect();
+        check_text(&s, i, acc);
+    }));
+    let s1b = SubReport::new("characters", "A", &format!("every string of ≤ {} characters over {:?} ({} strings): same entry points and oracle", cl, chars, nc), cacc);
+
     // accepted text comes back verbatim from a built package's FILECAPS
     let dir = crate::ctx::run_dir().join("c19");
     let _ = std::fs::create_dir_all(&dir);
@@ -127,7 +139,7 @@ pub fn run(ctx: &Ctx) -> i32 {
     let s2 = SubReport::new("built", "A", "every grammar-accepted text of ≤ 3 (thorough 4) tokens given to FileOptions::caps, built, written, parsed: FILECAPS of the file equals the text", b);
     ctx.finish(
         "exploration",
-        vec![s1, s2],
+        vec![s1, s1b, s2],
         &["the recogniser in vlib::capsref implements the grammar of the property statement (group = operator followed by zero or more flags)", "strings longer than the token bound are not covered"],
         vec![],
     )
